@@ -418,10 +418,25 @@ class MultiAgentProblem(  # type: ignore[misc]
             self._kind.set_fluents_type("OBJECT_FLUENTS")
         for p in fluent.signature:
             self._update_problem_kind_type(p.type)
+            if p.type.is_bool_type():
+                self._kind.set_parameters("BOOL_FLUENT_PARAMETERS")
+            elif p.type.is_int_type():
+                self._kind.set_parameters("BOUNDED_INT_FLUENT_PARAMETERS")
 
     def _update_problem_kind_action(self, action: "up.model.action.Action"):
         for p in action.parameters:
-            self._update_problem_kind_type(p.type)
+            pt = p.type
+            self._update_problem_kind_type(pt)
+            if pt.is_bool_type():
+                self._kind.set_parameters("BOOL_ACTION_PARAMETERS")
+            elif pt.is_real_type():
+                self._kind.set_parameters("REAL_ACTION_PARAMETERS")
+            elif pt.is_int_type():
+                assert isinstance(pt, up.model.types._IntType)
+                if pt.lower_bound is None or pt.upper_bound is None:
+                    self._kind.set_parameters("UNBOUNDED_INT_ACTION_PARAMETERS")
+                else:
+                    self._kind.set_parameters("BOUNDED_INT_ACTION_PARAMETERS")
         if isinstance(action, up.model.action.InstantaneousAction):
             for c in action.preconditions:
                 self._update_problem_kind_condition(c)
